@@ -104,7 +104,177 @@ def tight_tables(measure, threshold, sizes, op='>=', shuffle_rng=None, extra_ove
     return L, R, groups
 
 
+# ----------------------------------------------------------------------------- ambiguous token sets
+
+def ambiguous_tables(rng, n=14):
+    """Values for a comma-delimiter tokenizer whose TOKENS contain blanks, dashes and empty strings:
+    different token sets that coincide once the tokens are joined, sorted or stripped
+    ({'a b', 'c'} / {'a', 'b c'} / {'a b c'}, {'ab', 'c'} / {'a', 'bc'}, {' a'} / {'a'}, {'a', ''} / {'a'}).
+    Any signature of a record other than its token set itself confuses some of them."""
+    toks = ['a', 'b', 'c', 'a b', 'b c', 'a b c', 'ab', 'bc', 'abc', ' a', 'a ', 'c a', 'a-b', 'b-c', 'a|b']
+    words = ['a', 'b', 'c', 'd', 'e']
+    bases = [sorted(rng.sample(words, rng.choice([2, 3, 3, 4]))) for _ in range(3)]
+    out = []
+    for side in 'lr':
+        vals = []
+        for _ in range(n):
+            k = rng.choice([1, 2, 2, 3, 3, 4])
+            ts = rng.sample(toks, k)
+            if rng.random() < 0.7:
+                # the same word sequence cut into tokens at different places: 'a,b,c' / 'a b,c' /
+                # 'a,b c' / 'a b c' (blank inside tokens), 'ab,c' / 'a,bc' (nothing), 'a-b,c' ...
+                base = rng.choice(bases)
+                sep = rng.choice([' ', ' ', '', '-'])
+                ts, cur = [], [base[0]]
+                for w in base[1:]:
+                    if rng.random() < 0.5:
+                        cur.append(w)
+                    else:
+                        ts.append(sep.join(cur))
+                        cur = [w]
+                ts.append(sep.join(cur))
+                rng.shuffle(ts)
+            if rng.random() < 0.15:
+                ts.append('')              # 'a,' -> tokens 'a' and possibly ''
+            if rng.random() < 0.15:
+                ts.append(ts[0])           # a repeated token (set semantics)
+            vals.append(','.join(ts))
+        keys = rng.sample(range(100), n)
+        out.append(T.table_spec([side + 'id', side + 'attr'], [[k, v] for k, v in zip(keys, vals)],
+                                dtypes={side + 'attr': 'object'}))
+    return out[0], out[1], {'kind': 'delim', 'delims': [','], 'return_set': True}
+
+
+# ----------------------------------------------------------------------------- W5 rare shared tokens
+
+_RARE = {}
+
+
+def rare_shared_tables(N):
+    """One table pair holding, for every (a, b, o) with 1 <= o <= min(a, b) <= max(a, b) <= N, a left
+    row of a tokens and a right row of b tokens sharing exactly o tokens, where the SHARED tokens are
+    the rare ones (they occur in that pair only) and the other tokens are common (they occur in many
+    rows): under a rarest-first order every shared token lies inside both prefixes -- the mirror image
+    of W1, where shared tokens come last.  Any shortcut that decides a pair from what the prefixes
+    (or the position filter's overlap count) already show is exercised on every pair."""
+    if N not in _RARE:
+        lrows, rrows, groups = [], [], []
+        gid = 0
+        for a in range(1, N + 1):
+            for b in range(1, N + 1):
+                for o in range(1, min(a, b) + 1):
+                    sh = ['s%d_%d' % (gid, i) for i in range(o)]
+                    lrows.append([gid, ' '.join(sh + ['cl%d' % i for i in range(a - o)])])
+                    rrows.append([gid, ' '.join(['cr%d' % i for i in range(b - o)] + sh)])
+                    groups.append((a, b, o))
+                    gid += 1
+        L = T.table_spec(['id', 's'], lrows, dtypes={'s': 'object'})
+        R = T.table_spec(['id', 's'], rrows, dtypes={'s': 'object'})
+        _RARE[N] = (L, R, groups)
+    return _RARE[N]
+
+
+def near_score_thresholds(measure, N, rng, count):
+    """Thresholds at, a hair above and a hair below scores attained by sets of up to N tokens."""
+    scores = sorted(set(s for a in range(1, N + 1) for b in range(a, N + 1) for o in range(1, a + 1)
+                        for s in model.raw_scores(measure, a, b, o) if s < 1.0))
+    out = []
+    for s in rng.sample(scores, min(count, len(scores))):
+        out.append(rng.choice([s, s + 1e-5, s + 2e-5, s + 4e-6, nextafter(s, 1), s - 1e-5, nextafter(s, 0),
+                               round(s, 4), round(s, 4) + 1e-5]))
+    return [min(1.0, max(1e-6, t)) for t in out]
+
+
+# ----------------------------------------------------------------------------- large tables
+
+def large_planted_tables(rng, n, kind, q=2, pairs=14):
+    """Tables of n rows each (beyond every plausible 'small table' switch: 500, 1000, 1024, 2048
+    rows) made of filler rows that match nothing, with a few planted matching pairs at random
+    positions (never at position 0, mostly at positions that no regular sample would visit).
+    kind 'ws': word tokens, planted pairs share 5 of 6 / 6 of 6 / 3 of 6 tokens;
+    kind 'ed': strings for edit distance, planted pairs at distance 0, 1, 2 (substitution, insertion,
+    deletion, also inside runs of repeated characters of strings with 16-30 characters).
+    -> L, R, planted = [(left key, right key, info)]"""
+    letters = 'abcdefghijklmnopqrst'
+    lpos = rng.sample(range(1, n), pairs)
+    rpos = rng.sample(range(1, n), pairs)
+    lvals, rvals = [None] * n, [None] * n
+    planted = []
+    for x, (i, j) in enumerate(zip(lpos, rpos)):
+        if kind == 'ws':
+            toks = ['p%dt%d' % (x, t) for t in range(6)]
+            shared = (5, 6, 3, 4)[x % 4]
+            # the shared tokens occur in this pair only; every row also holds two tokens that are
+            # common on its side of the join (they occur in every tenth filler row)
+            lv = toks[:] + ['lcw%d' % (x % 10), 'lcw%d' % ((x + 3) % 10)]
+            rv = toks[:shared] + ['p%du%d' % (x, t) for t in range(6 - shared)] + \
+                ['rcw%d' % (x % 10), 'rcw%d' % ((x + 3) % 10)]
+            rng.shuffle(lv)
+            rng.shuffle(rv)
+            lvals[i], rvals[j] = ' '.join(lv), ' '.join(rv)
+            planted.append((i, j, {'shared': shared, 'a': 8, 'b': 8}))
+        else:
+            m = x % 5
+            # a private alphabet per pair: its q-grams occur in these two rows only
+            al = ''.join(chr(0x3b1 + 6 * x + c) for c in range(6)) if x % 2 else 'uvwxyz'
+            up = chr(0x410 + x)
+            if m == 0:
+                base = ''.join(rng.choice(al) for _ in range(rng.randint(6, 12)))
+                other = base
+            elif m == 1:
+                base = ''.join(rng.choice(al) for _ in range(rng.randint(8, 14)))
+                p = rng.randrange(len(base))
+                other = base[:p] + up + base[p + 1:]
+            elif m == 2:      # deletion inside a run, long strings ('committee' / 'commitee')
+                unit = rng.choice([al[5], al[4:6], al[3:6]])
+                base = al[:2] * 2 + unit * rng.randint(6, 9) + al[2] + al[0]
+                p = rng.randint(5, len(base) - 4)
+                other = base[:p] + base[p + 1:]
+            elif m == 3:
+                base = ''.join(rng.choice(al) for _ in range(rng.randint(16, 30)))
+                p = rng.randrange(len(base))
+                other = base[:p] + up + base[p:]
+            else:
+                base = ''.join(rng.choice(al) for _ in range(rng.randint(10, 20)))
+                p, p2 = sorted(rng.sample(range(len(base)), 2))
+                other = base[:p] + up + base[p + 1:p2] + base[p2 + 1:]
+            lvals[i], rvals[j] = base, other
+            planted.append((i, j, {'l': base, 'r': other}))
+    if kind == 'ws':
+        # near misses: left rows 'nm<i> alpha beta' (a token of their own plus two common ones) and
+        # right rows 'alpha beta': Jaccard 2/3 -- unless the row's own token gets lost on the way
+        free_l = [i for i in range(1, n) if lvals[i] is None]
+        free_r = [i for i in range(1, n) if rvals[i] is None]
+        for i in rng.sample(free_l, 20):
+            lvals[i] = 'nm%d alpha beta' % i
+        for j in rng.sample(free_r, 2):
+            rvals[j] = 'alpha beta'
+    for vals, ns in ((lvals, 'l'), (rvals, 'r')):
+        for i in range(n):
+            if vals[i] is None:
+                if kind == 'ws':
+                    vals[i] = '%sf%da %sf%db %scw%d' % (ns, i, ns, i, ns, i % 10) if i % 10 < 4 else \
+                        '%sf%da %sf%db %sf%dc' % (ns, i, ns, i, ns, i)
+                else:
+                    vals[i] = ''.join(rng.choice(letters) for _ in range(rng.randint(8, 14)))
+    L = T.table_spec(['id', 's'], [[i, v] for i, v in enumerate(lvals)], dtypes={'s': 'object'})
+    R = T.table_spec(['id', 's'], [[i, v] for i, v in enumerate(rvals)], dtypes={'s': 'object'})
+    return L, R, planted
+
+
 # ----------------------------------------------------------------------------- huge records
+
+def huge_tail_tables(n_own, n_shared):
+    """Row 0 of the left table holds n_own tokens of its own followed (in the global rarest-first
+    order: they are the more frequent ones) by n_shared tokens that make up row 0 of the right
+    table: every common token sits beyond position n_own of the long record's ordered token list."""
+    shared = ['s%d' % i for i in range(n_shared)]
+    own = ['o%d' % i for i in range(n_own)]
+    L = T.table_spec(['id', 's'], [[0, ' '.join(shared[:n_shared // 2] + own + shared[n_shared // 2:])],
+                                   [1, 'a b c'], [2, 'q r'], [3, 'x']], dtypes={'s': 'object'})
+    R = T.table_spec(['id', 's'], [[10, ' '.join(shared)], [11, 'a b d'], [12, 'q r']], dtypes={'s': 'object'})
+    return L, R
+
 
 def huge_tables(n, diff=3):
     """Two 3-row tables; row 0 of each holds n tokens of which all but `diff` are shared (token counts
@@ -431,7 +601,19 @@ def random_table_pair(rng, tok=None, max_rows=12, missing=0.1, dup_rate=0.2, ext
                 dtypes[c] = 'object'
         if rng.random() < 0.5:
             rng.shuffle(cols)
-        ik = index_kind or rng.choice(['range', 'range', 'shuffled', 'str', 'offset', 'dup', 'const'])
+        if extra and rng.random() < 0.12:
+            # a categorical column (declared categories that never occur) and, rarely, a very wide table
+            c = side + 'x_cat_str'
+            cols.insert(rng.randint(0, len(cols)), c)
+            data[c] = [None if rng.random() < 0.2 else 'k%d' % rng.randint(0, 2) for _ in range(n)]
+            dtypes[c] = 'category'
+            if rng.random() < 0.3:
+                for w in range(30):
+                    cw = '%sw%02d_int' % (side, w)
+                    cols.append(cw)
+                    data[cw] = [w + i for i in range(n)]
+                    dtypes[cw] = 'int64'
+        ik = index_kind or rng.choice(['range', 'range', 'shuffled', 'str', 'offset', 'dup', 'const', 'multi', 'float'])
         if ik == 'range':
             index = None
         elif ik == 'dup':       # concat-style: labels restart (non-unique index)
@@ -444,6 +626,10 @@ def random_table_pair(rng, tok=None, max_rows=12, missing=0.1, dup_rate=0.2, ext
             rng.shuffle(index)
         elif ik == 'offset':
             index = list(range(10, 10 + n))
+        elif ik == 'multi':     # two-level row index (what groupby / set_index([a, b]) leave behind)
+            index = [['g%d' % (i % 2), i // 2] for i in range(n)]
+        elif ik == 'float':
+            index = [i + 0.5 for i in range(n)]
         else:
             index = ['r%d' % i for i in rng.sample(range(10 * n + 1), n)]
         out.append({'cols': cols, 'data': data, 'index': index, 'dtypes': dtypes})
@@ -474,7 +660,7 @@ def random_out_attrs(rng, spec, key, attr):
     return sel
 
 
-def random_join_call(rng, api=None, tok=None, n_jobs_pool=(1, 1, 1, 2, 3), **tkw):
+def random_join_call(rng, api=None, tok=None, n_jobs_pool=(1, 1, 1, 2, 3), collide=False, **tkw):
     api = api or rng.choice(['jaccard_join', 'cosine_join', 'dice_join',
                              'overlap_coefficient_join', 'overlap_join'])
     many_jobs = rng.random() < 0.05
@@ -499,8 +685,8 @@ def random_join_call(rng, api=None, tok=None, n_jobs_pool=(1, 1, 1, 2, 3), **tkw
     call['l_out_attrs'] = random_out_attrs(rng, L, 'lid', 'lattr')
     call['r_out_attrs'] = random_out_attrs(rng, R, 'rid', 'rattr')
     if rng.random() < 0.3:
-        call['l_out_prefix'] = rng.choice(['left_', 'L.', 'l_', '', 'ltable.', 'l.*', '(l)', '$l_'])
-        call['r_out_prefix'] = rng.choice(['right_', 'R.', 'r_', 'rtable.', 'r[', '^r+'])
+        call['l_out_prefix'] = rng.choice(['left_', 'L.', 'l_', '', 'ltable.', 'l.*', '(l)', '$l_', 'l%%', '50%_', '%s_', '{}_', '{0}', 'l\\1'])
+        call['r_out_prefix'] = rng.choice(['right_', 'R.', 'r_', 'rtable.', 'r[', '^r+', 'r%%', '%(r)s_', '{r}_', 'r%d'])
     call['out_sim_score'] = rng.random() < 0.75
     call['n_jobs'] = rng.choice(list(n_jobs_pool))
     if rng.random() < 0.06:
@@ -519,6 +705,21 @@ def random_join_call(rng, api=None, tok=None, n_jobs_pool=(1, 1, 1, 2, 3), **tkw
         call['n_jobs_as'] = 'numpy'
     if call['threshold'] == 1.0 and rng.random() < 0.5:
         call['threshold'] = 1          # an int is a valid threshold too
+    if collide and rng.random() < 0.04:
+        # both tables call their key 'id' and the caller passes the same prefix for both sides: two
+        # output columns carry the same label; the documented order (left key, then right key) is
+        # what tells them apart
+        for spec, old in ((L, 'lid'), (R, 'rid')):
+            spec['cols'] = ['id' if c == old else c for c in spec['cols']]
+            spec['data']['id'] = spec['data'].pop(old)
+            if old in spec['dtypes']:
+                spec['dtypes']['id'] = spec['dtypes'].pop(old)
+        call['l_key'] = call['r_key'] = 'id'
+        for k, old in (('l_out_attrs', 'lid'), ('r_out_attrs', 'rid')):
+            if call.get(k):
+                call[k] = ['id' if a == old else a for a in call[k]]
+        call['l_out_prefix'] = call['r_out_prefix'] = rng.choice(['t_', '', 'l_'])
+        call['colliding_labels'] = True
     return call
 
 
